@@ -6,7 +6,8 @@
 //!   `emit 0 <notif>`  the source subject is called; prints `w=<k>` (how often the
 //!                     poller's waker was woken during the event); kind status:
 //!                     `o=<what the downstream probe received>`
-//!   `poll`            the future / stream is polled ONCE with a counting waker:
+//!   `poll`            the future / stream is polled ONCE with a FRESH counting waker (`w=` of a later `emit`
+//!                     counts the wake-ups of the waker of the most recent poll only):
 //!                     `poll=Pending` | `poll=Ready(Ok(5))` | `poll=Ready(SrcErr(3))`
 //!                     | `poll=Ready(Err(Empty))` | `poll=Ready(Err(MultipleValues))`;
 //!                     stream: `next=Pending` | `next=Some(Ok(3))` | `next=Some(Err(3))` | `next=None`
@@ -542,8 +543,10 @@ pub fn run(case: &Case, out: &mut Out) {
     return run_status_take(case, out);
   }
   let threads = case.flavor == "threads";
-  let wk = Arc::new(CountWaker(AtomicUsize::new(0)));
-  let the_waker = waker(wk.clone());
+  // EVERY poll gets a waker of its own (an executor is free to hand a different waker to each poll — a probe with
+  // `now_or_never()`, a stream that moves to another task); `w=` counts the wake-ups of the waker of the MOST RECENT
+  // poll, the only one the `Future` / `Stream` contract promises to wake
+  let mut wk = Arc::new(CountWaker(AtomicUsize::new(0)));
   let llog = Rc::new(RefCell::new(Vec::<Notif>::new()));
   let tlog = Arc::new(Mutex::new(Vec::<Notif>::new()));
 
@@ -608,6 +611,10 @@ pub fn run(case: &Case, out: &mut Out) {
         }
       }
       "poll" => {
+        if !matches!(conv, Conv::Dropped) {
+          wk = Arc::new(CountWaker(AtomicUsize::new(0)));
+        }
+        let the_waker = waker(wk.clone());
         let mut cx = Context::from_waker(&the_waker);
         let line = match &mut conv {
           Conv::Future(f) => show_fut(f.as_mut().poll(&mut cx), |v| v.to_string()),
